@@ -251,18 +251,25 @@ def _guard_by_cases(rd: Reader, width: int):
     nonempty = tm.call(tm.glob("builtins.len"), (rd.raw,), ())
     out = []
     for L in (width - 1, width, width + 1):
-        env = _case_env(rd, L)
-        vals = [tm.fold(e.live, env) for e in raises]
-        if any(v is True for v in vals):
-            out.append(True)
-        elif all(v is False for v in vals):
-            out.append(False)
-        else:
-            return None
+        # ... in a file of several rows and in a file of one row (a guard
+        # that only looks at files with more than one row lets a malformed
+        # single pose through)
+        per_rows = []
+        for rows in (5, 1):
+            env = _case_env(rd, L, rows=rows)
+            vals = [tm.fold(e.live, env) for e in raises]
+            if any(v is True for v in vals):
+                per_rows.append(True)
+            elif all(v is False for v in vals):
+                per_rows.append(False)
+            else:
+                return None
+        out.append(per_rows[0] if per_rows[0] == per_rows[1]
+                   else "depends on the number of rows")
     return tuple(out)
 
 
-def _case_env(rd: Reader, L: int, empty: bool = False):
+def _case_env(rd: Reader, L: int, empty: bool = False, rows: int = 5):
     """truth assignment for the world 'non-empty file, every row has L
     fields, no conversion error'"""
     first_len = tm.call(tm.glob("builtins.len"),
@@ -294,7 +301,7 @@ def _case_env(rd: Reader, L: int, empty: bool = False):
                             t.args[1][0].args[0] is rd.raw:
                         return L          # any row of that file
                     if t is nonempty:
-                        return 5
+                        return rows
                     if tm.is_const(t) and isinstance(tm.const_val(t), int):
                         return tm.const_val(t)
                     if t.op == "ite":
@@ -404,6 +411,12 @@ def check(ctx):
                f"{'exactly' if grel == 'NotEq' else 'at least'} {gconst} "
                f"entries (first-row guard raises FileInterfaceException)"
                if okg else
+               (f"{name}: whether a first row of the wrong width is refused "
+                f"depends on the number of rows "
+                f"(refused for {gconst - 1}, {gconst}, {gconst + 1} fields: "
+                f"{sem}) — a malformed file with a single row is loaded; "
+                if sem is not None and any(isinstance(x, str) for x in sem)
+                else "") +
                f"{name}: column-count guard is "
                f"{(g[0], g[1]) if g else 'missing'}, the format has "
                f"{'exactly' if grel == 'NotEq' else 'at least'} {gconst} "
